@@ -10,7 +10,7 @@ import sys
 
 from .core import VERIF, REPO, scratch
 
-EXPECTED_MISS = {'C14-2': 'string-literal injection through soapAction: outside the claimed (keyword) half of C14'}
+EXPECTED_MISS = {}
 
 
 def run_selftest(pid: str) -> dict:
